@@ -25,6 +25,17 @@ from . import slip77
 import hashlib, gc
 
 
+def _set_once(scope, name, value, length=None):
+    """Sets a liquid-specific field of the scope, refuses duplicated fields and values of wrong length"""
+    if getattr(scope, name) is not None:
+        raise PSBTError("Duplicated field %s" % name)
+    if length is not None:
+        if len(value) != length:
+            raise PSBTError("Field %s should be %d bytes long" % (name, length))
+        value = int.from_bytes(value, "little")
+    setattr(scope, name, value)
+
+
 class LInputScope(InputScope):
     TX_CLS = LTransaction
     TXOUT_CLS = LTransactionOutput
@@ -124,7 +135,7 @@ class LInputScope(InputScope):
         return LTransactionInput(
             self.txid,
             self.vout,
-            sequence=(self.sequence or 0xFFFFFFFF),
+            sequence=(self.sequence if self.sequence is not None else 0xFFFFFFFF),
             asset_issuance=self.asset_issuance,
         )
 
@@ -133,7 +144,7 @@ class LInputScope(InputScope):
         return LTransactionInput(
             self.txid,
             self.vout,
-            sequence=(self.sequence or 0xFFFFFFFF),
+            sequence=(self.sequence if self.sequence is not None else 0xFFFFFFFF),
             asset_issuance=self.asset_issuance,
             witness=TxInWitness(self.issue_rangeproof, self.token_rangeproof),
         )
@@ -148,44 +159,46 @@ class LInputScope(InputScope):
             if self.compress:
                 skip_string(stream)
             else:
-                self.range_proof = read_string(stream)
+                _set_once(self, "range_proof", read_string(stream))
         elif k == b"\xfc\x04pset\x02":
             if self.compress:
                 skip_string(stream)
             else:
-                self.issue_rangeproof = read_string(stream)
+                _set_once(self, "issue_rangeproof", read_string(stream))
         elif k == b"\xfc\x04pset\x03":
             if self.compress:
                 skip_string(stream)
             else:
-                self.token_rangeproof = read_string(stream)
+                _set_once(self, "token_rangeproof", read_string(stream))
         else:
             v = read_string(stream)
             # liquid-specific fields
             if k == b"\xfc\x08elements\x00":
-                self.value = int.from_bytes(v, "little")
+                _set_once(self, "value", v, 8)
             elif k == b"\xfc\x08elements\x01":
-                self.value_blinding_factor = v
+                _set_once(self, "value_blinding_factor", v)
             elif k == b"\xfc\x08elements\x02":
-                self.asset = v
+                _set_once(self, "asset", v)
             elif k == b"\xfc\x08elements\x03":
-                self.asset_blinding_factor = v
+                _set_once(self, "asset_blinding_factor", v)
             elif k == b"\xfc\x04pset\x00":
-                self.issue_value = int.from_bytes(v, "little")
+                _set_once(self, "issue_value", v, 8)
             elif k == b"\xfc\x04pset\x01":
-                self.issue_commitment = v
+                _set_once(self, "issue_commitment", v)
             elif k == b"\xfc\x04pset\x0f":
-                self.issue_proof = v
+                _set_once(self, "issue_proof", v)
             elif k == b"\xfc\x04pset\x0a":
-                self.token_value = int.from_bytes(v, "little")
+                _set_once(self, "token_value", v, 8)
             elif k == b"\xfc\x04pset\x0b":
-                self.token_commitment = v
+                _set_once(self, "token_commitment", v)
             elif k == b"\xfc\x04pset\x0c":
-                self.issue_nonce = v
+                _set_once(self, "issue_nonce", v)
             elif k == b"\xfc\x04pset\x0d":
-                self.issue_entropy = v
+                _set_once(self, "issue_entropy", v)
             elif k == b"\xfc\x04pset\x10":
-                self.token_proof = v
+                _set_once(self, "token_proof", v)
+            elif k in self.unknown:
+                raise PSBTError("Duplicated key")
             else:
                 self.unknown[k] = v
 
@@ -207,34 +220,34 @@ class LInputScope(InputScope):
         if self.range_proof is not None:
             r += ser_string(stream, b"\xfc\x04pset\x0e")
             r += ser_string(stream, self.range_proof)
-        if self.issue_value:
+        if self.issue_value is not None:
             r += ser_string(stream, b"\xfc\x04pset\x00")
             r += ser_string(stream, self.issue_value.to_bytes(8, "little"))
-        if self.token_value:
+        if self.token_value is not None:
             r += ser_string(stream, b"\xfc\x04pset\x0a")
             r += ser_string(stream, self.token_value.to_bytes(8, "little"))
-        if self.issue_commitment:
+        if self.issue_commitment is not None:
             r += ser_string(stream, b"\xfc\x04pset\x01")
             r += ser_string(stream, self.issue_commitment)
-        if self.issue_proof:
+        if self.issue_proof is not None:
             r += ser_string(stream, b"\xfc\x04pset\x0f")
             r += ser_string(stream, self.issue_proof)
-        if self.issue_rangeproof:
+        if self.issue_rangeproof is not None:
             r += ser_string(stream, b"\xfc\x04pset\x02")
             r += ser_string(stream, self.issue_rangeproof)
-        if self.token_commitment:
+        if self.token_commitment is not None:
             r += ser_string(stream, b"\xfc\x04pset\x0b")
             r += ser_string(stream, self.token_commitment)
-        if self.issue_nonce:
+        if self.issue_nonce is not None:
             r += ser_string(stream, b"\xfc\x04pset\x0c")
             r += ser_string(stream, self.issue_nonce)
-        if self.issue_entropy:
+        if self.issue_entropy is not None:
             r += ser_string(stream, b"\xfc\x04pset\x0d")
             r += ser_string(stream, self.issue_entropy)
-        if self.token_proof:
+        if self.token_proof is not None:
             r += ser_string(stream, b"\xfc\x04pset\x10")
             r += ser_string(stream, self.token_proof)
-        if self.token_rangeproof:
+        if self.token_rangeproof is not None:
             r += ser_string(stream, b"\xfc\x04pset\x03")
             r += ser_string(stream, self.token_rangeproof)
         # separator
@@ -393,35 +406,37 @@ class LOutputScope(OutputScope):
             if self.compress:
                 skip_string(stream)
             else:
-                self.range_proof = read_string(stream)
+                _set_once(self, "range_proof", read_string(stream))
         elif k in [b"\xfc\x08elements\x05", b"\xfc\x04pset\x05"]:
             if self.compress:
                 skip_string(stream)
             else:
-                self.surjection_proof = read_string(stream)
+                _set_once(self, "surjection_proof", read_string(stream))
         else:
             v = read_string(stream)
             # liquid-specific fields
             if k in [b"\xfc\x08elements\x00", b"\xfc\x04pset\x01"]:
-                self.value_commitment = v
+                _set_once(self, "value_commitment", v)
             elif k == b"\xfc\x08elements\x01":
-                self.value_blinding_factor = v
+                _set_once(self, "value_blinding_factor", v)
             elif k == b"\xfc\x04pset\x02":
-                self.asset = v
+                _set_once(self, "asset", v)
             elif k in [b"\xfc\x08elements\x02", b"\xfc\x04pset\x03"]:
-                self.asset_commitment = v
+                _set_once(self, "asset_commitment", v)
             elif k == b"\xfc\x08elements\x03":
-                self.asset_blinding_factor = v
+                _set_once(self, "asset_blinding_factor", v)
             elif k in [b"\xfc\x08elements\x06", b"\xfc\x04pset\x06"]:
-                self.blinding_pubkey = v
+                _set_once(self, "blinding_pubkey", v)
             elif k in [b"\xfc\x08elements\x07", b"\xfc\x04pset\x07"]:
-                self.ecdh_pubkey = v
+                _set_once(self, "ecdh_pubkey", v)
             elif k == b"\xfc\x04pset\x08":
-                self.blinder_index = int.from_bytes(v, "little")
+                _set_once(self, "blinder_index", v, 4)
             elif k == b"\xfc\x04pset\x09":
-                self.value_proof = v
+                _set_once(self, "value_proof", v)
             elif k == b"\xfc\x04pset\x0a":
-                self.asset_proof = v
+                _set_once(self, "asset_proof", v)
+            elif k in self.unknown:
+                raise PSBTError("Duplicated key")
             else:
                 self.unknown[k] = v
 
@@ -634,7 +649,7 @@ class PSET(PSBT):
     @property
     def blinded_tx(self):
         return self.TX_CLS(
-            version=self.tx_version or 2,
+            version=self.tx_version if self.tx_version is not None else 2,
             locktime=self.locktime or 0,
             vin=[inp.blinded_vin for inp in self.inputs],
             vout=[out.blinded_vout for out in self.outputs],
